@@ -24,7 +24,8 @@ RULE = ("one run = one bring-up of the real manager process for one configuratio
         "{ok, altered} x unlock {accepted, refused} x new PIN {accepted, refused, error} x (SGX, a quarter "
         "of the runs) another version while locked than after the unlock x mode after "
         "EXIT {signer, bootloader, ui-heartbeat, gone longer than the wait} x (seeded, one run in five) "
-        "one link fault or error status at one of the first 14 exchanges; enumerated: the full "
+        "one link fault or error status at one of the first 14 exchanges, or (one in eight) the operator's "
+        "Ctrl-C at one of the first 40 seams; enumerated: the full "
         "product of the enum dimensions with versions at 5.4.1; seeded: everything incl. version grid; "
         "non-trivial = at least one APDU was exchanged; distinct = the configuration tuple")
 TIERS = {"quick": {"runs": 60000, "wall": 240}, "thorough": {"runs": 1500000, "wall": 3000}}
@@ -150,10 +151,20 @@ def run_one(ch, cfg):
             if plat == "ledger" else ["send_err", "recv_eof", "recv_eof_after"]
         kinds = kinds + [("sw", 0x6E00), ("sw", 0x6A99)]
         lfault = {"at": ch.draw(14, "link-fault.exchange"), "kind": ch.pick(kinds, "link-fault.kind")}
+    intr = ch.draw(40, "operator-interrupt.seam") if lfault is None and ch.draw(8, "operator-interrupt") == 1 \
+        else None
     w = ProcWorld(ch, platform=plat, device_cfg=dcfg)
     dev = w.device
     if not c["present"]:
         dev.plugged = False
+    if intr is not None:
+        # the operator's Ctrl-C during the bring-up (KeyboardInterrupt in the main thread at a seam)
+        w.interrupt_at = intr
+
+        def _only_bring_up(w_, label):
+            if w_.serving():
+                w_.interrupt_at = None       # a Ctrl-C of the bring-up, not of the probe
+        w.on_seam = _only_bring_up
     if lfault is not None:
         def lfn(i, apdu):
             if i == lfault["at"] and not w.serving():        # a fault of the bring-up, not of the probe
@@ -201,8 +212,10 @@ def run_one(ch, cfg):
     expect = REF.serves(c)
     desc = "config %s; unlock APDUs %d, PIN bytes sent %d, served %s, manager %s" % (
         _cs(c), dev.unlocks, dev.pin_sends, served, w.outcomes.get("mgr0", "running"))
-    faulted = lfault is not None and "fired" in lfault
-    if faulted:
+    faulted = (lfault is not None and "fired" in lfault) or bool(w.interrupted)
+    if w.interrupted:
+        desc += "; Ctrl-C at seam %d (%s)" % (w.interrupted[0][1], w.interrupted[0][2])
+    if lfault is not None and "fired" in lfault:
         desc += "; link fault %s at exchange %d (instruction %s)" % (lfault["kind"], lfault["at"],
                                                                     lfault["fired"])
     # ---- rule A: unlock at most once and only when allowed
@@ -226,7 +239,8 @@ def run_one(ch, cfg):
     leaked = w.finish()
     st = tuple(sorted((k2, str(v)) for k2, v in c.items()))
     return {"violations": viol, "digest": w.log.digest(), "state": st,
-            "nontrivial": len(dev.apdus) > 0, "faults": dict(w.link.stats.faults),
+            "nontrivial": len(dev.apdus) > 0,
+            "faults": dict(dict(w.link.stats.faults), **({"operator-interrupt": 1} if w.interrupted else {})),
             "probes": {"served": int(served), "unlocked": int(dev.unlocks > 0),
                        "expect.%s" % expect: 1, "platform." + plat: 1,
                        "pin_changed": int(len(dev.newpin_acks) > 0)},
